@@ -77,6 +77,8 @@ def random_op(rng: random.Random, kinds: list[str], nnodes: int, nvars: int, big
     k = rng.choice(kinds)
     sizes = [-1, -1, -1, 0, 1, 2, 3, 4, 6] if not big_limits else [-1, -1, 1, 2, 3, 5, 8, 12]
     op = {"op": k, "n": rng.randint(1, nnodes)}
+    if k == "api":
+        op["n"] = 1
     if k == "bfs":
         op.update(lvl=rng.choice([-1, -1, 0, 1, 2]), size=rng.choice(sizes))
     elif k == "dfs":
